@@ -309,6 +309,8 @@ LONG_TOKENS = {
 LONG_CONTEXTS = ["K::{T}\n", "K::[{T}]\n", "K::[a::{T}]\n", "K::[{T}∧REQ→§SELF]\n", "K::CONST[{T}]\n", "K::[x∧RANGE[0,{T}]]\n", "K::[x∧MAX_LENGTH[{T}]]\n",
                  "§{T}::S\n  X::1\n", "K::A[{T}]\n", "K::w {T} w\n", "===D===\nMETA:\n  TYPE::X\n  VERSION::{T}\n---\nA::1\n===END===\n",
                  "===D===\nMETA:\n  TYPE::X\n  CONTRACT::[FIELD[F]::REQ∧CONST[{T}]]\n---\nF::{T}\n===END===\n", "{T}::1\n", "K::1\n// {T}\n", "K::{T}→{T}\n"]
+LONG_CONTEXTS += ['K::["x"∧REGEX["a{{T}}"]]\n', 'K::["x"∧REGEX["a{1,{T}}"]]\n', 'K::["x"∧REGEX["(a{{T}}){{T}}"]]\n',
+                  "---\nname: x\ndescription: y\nwhen: {T}\n---\n===S===\nMETA:\n  TYPE::SKILL\n  VERSION::\"1.0\"\n---\nK::v\n===END===\n"]
 LONG_SIZES = [50, 400, 4299, 4300, 4301, 5000, 20000]
 
 
@@ -324,6 +326,27 @@ def check_long(case) -> Res:
             v["case"] = dict(long=[tok, ctxt, n], tool=v["case"]["tool"], args=v["case"]["args"])
         r.violations += r2.violations
         r.transitions += r2.transitions
+    return r
+
+
+# ------------------------------------------------------------------ YAML frontmatter values
+# the frontmatter is handed to a YAML loader by the schema validator (SKILL validates it): every scalar shape YAML resolves to a non-string
+# (dates that do not exist, times, hex/octal/sexagesimal ints, infinities, tags, anchors, merge keys) and every broken flow/block shape
+FM_VALUES = ["2024-99-99", "2024-13-01", "2024-02-30", "2001-02-28 25:61:61", "2024-01-01T99:99:99Z", "2024-1-1", "0x", "0x1F", "0o17", "1_000", "190:20:30", "1e999", ".inf", "-.inf", ".nan", "~",
+             "null", "yes", "{a: b", "[1, 2", "{a: b}", "[1, 2]", "? complex", "!!python/object:os.system x", "!!binary x", "!!timestamp x", "!!int x", "!!float x", "&a [*a]", "*undefined", "<<: *x",
+             "|\n  block\n  text", ">\n  folded", "'unterminated", '"unterminated', "@at", "`tick", "%percent", "a: b: c", "- a", "\t tab", "9" * 5000, "", " "]
+FM_KEYS = ["when", "name", "description", "allowed-tools", "version", "x"]
+
+
+def check_frontmatter_value(case) -> Res:
+    key, val = case
+    fm = {"name": "n", "description": "d"}
+    lines = [f"{k}: {v}" for k, v in fm.items() if k != key] + [f"{key}: {val}"]
+    text = "---\n" + "\n".join(lines) + "\n---\n===S===\nMETA:\n  TYPE::SKILL\n  VERSION::\"1.0\"\n---\nK::v\n===END===\n"
+    r = read_all(text, ["frontmatter", key, val[:40]])
+    r2 = check_tools_text(text, None)
+    r.violations += r2.violations
+    r.transitions += r2.transitions
     return r
 
 
@@ -528,6 +551,14 @@ def check_depth(case) -> Res:
         text = "===D===\nMETA:\n  TYPE::X\n  N:\n    M::" + "[" * d + "a" + "]" * d + "\n---\nK::v\n===END===\n"
     elif shape == "meta_value_unclosed":
         text = "META:\n  M::" + "[" * d + "a\n"
+    elif shape == "blocks":           # INDENTATION nesting: d nested blocks, a leaf in the innermost
+        text = "".join("  " * i + f"B{i}:\n" for i in range(d)) + "  " * d + "K::v\n"
+    elif shape == "sections":
+        text = "".join("  " * i + f"§{i + 1}::S{i}\n" for i in range(d)) + "  " * d + "K::v\n"
+    elif shape == "blocks_in_envelope":
+        text = "===D===\nMETA:\n  TYPE::X\n---\n" + "".join("  " * i + f"B{i}:\n" for i in range(d)) + "  " * d + "K::v\n===END===\n"
+    elif shape == "meta_blocks":
+        text = "===D===\nMETA:\n  TYPE::X\n" + "".join("  " * (i + 1) + f"N{i}:\n" for i in range(d)) + "  " * (d + 1) + "K::v\n---\nA::1\n===END===\n"
     else:
         raise KeyError(shape)
     r = read_all(text, list(case))
@@ -562,6 +593,7 @@ def run(ctx):
     longs = [(t, c, n, n in (4300, 4301) or not ctx.quick) for t in sorted(LONG_TOKENS) for c in LONG_CONTEXTS for n in LONG_SIZES]
     ctx.explore("readers.long", longs, check_long, chunk=10)
     ctx.explore("meta.kinds", meta_kind_space(), check_meta_kind, chunk=5)
+    ctx.explore("frontmatter.values", [(k, v) for k in FM_KEYS for v in FM_VALUES], check_frontmatter_value, chunk=5)
     ctx.explore("tools.seq", Sequences(T20, Lt), check_tools_seq, chunk=20)
     from ..pool import DOCS
     ctx.explore("tools.pool", [[k] for k in sorted(DOCS)], check_tools_pool, chunk=1)
@@ -573,7 +605,8 @@ def run(ctx):
                 check_scaling, chunk=1)
     depths = [1, 5, 50, 98, 99, 100, 101, 150, 400, 1500, 5000]
     depths = sorted(set(depths + [2, 3, 4, 6, 7, 10]))      # the deep-nesting WARNING threshold (5) is a special case of its own
-    ctx.explore("nesting.depth", Product(["list", "constructor", "inline_map", "section_annotation", "unclosed", "meta_value", "nested_meta_value", "meta_value_unclosed"], depths),
+    ctx.explore("nesting.depth", Product(["list", "constructor", "inline_map", "section_annotation", "unclosed", "meta_value", "nested_meta_value", "meta_value_unclosed",
+                                             "blocks", "sections", "blocks_in_envelope", "meta_blocks"], depths),
                 check_depth, chunk=1)
     d = _T.get("dir")
     if d:
@@ -610,6 +643,8 @@ def replay(ctx, rp):
             return check_mutation(tuple(case)).violations
         if sub == "scaling":
             return check_scaling(tuple(case)).violations
+        if sub == "frontmatter.values" and isinstance(case, dict) and "text" in case:
+            return [v for v in check_tools_text(case["text"], None).violations if v["case"]["tool"] == case["tool"] and v["case"]["args"] == case["args"]]
         if sub == "nesting.depth":
             return check_depth(tuple(case)).violations
     finally:
